@@ -28,8 +28,17 @@ RULE = ("seeded layouts: 1-4 scalar features (+image, +trace group with an optio
         "volume/dclab 0.36.0); unknown feature; stored / missing / wrong min-max-mean attributes; "
         "empty scalar / image datasets; 15% of the files written through RTDCWriter. Tasks: "
         "compress, compress again, repack with the four strip combinations, repack again, "
-        "condense with the four store options. Non-trivial = the layout has a dataset that is "
-        "re-created (not object-copied). distinct = distinct layout specs.")
+        "condense with the four store options, rtdc_copy called directly with random feature "
+        "selection / strip options / meta_prefix. Output names: seeded names built from the input "
+        "stem or another base, 0-2 extra dotted parts, suffix in {none, .rtdc, .h5, .RTDC, .rtdc~, "
+        ".tdms, .x}, hidden names, same / other directory, by-stander files at every path a wrong "
+        "suffix rule could hit; tasks compress/repack/condense/join; oracle: input exists with the "
+        "same sha256, output at name+'.rtdc' (or refused when that is the input), by-standers "
+        "untouched, no stray files. tdms2rtdc on a DIRECTORY of 2 (thorough: up to 4) different "
+        "measurements, the one with the fewest features first: every innate feature of each source "
+        "is in its output. Non-trivial = the layout has a dataset that is re-created (not "
+        "object-copied) / the output name needs the suffix correction. distinct = distinct layout "
+        "specs / (task, names).")
 TRUSTED_BASE = [
     "modelled, not verified: HDF5 filters, h5py.h5o.copy, h5py iter_chunks covering the dataset, "
     "create_dataset defaults (auto-chunking), numpy astype('S<n>')",
@@ -46,7 +55,9 @@ NOT_PROVED = [
     "generated file",
     "exact characterisation of tdms2rtdc's boundary-image skipping (only sub-list / identity "
     "theorems); tdms2rtdc is correspondence-only and runs in the thorough tier",
-    "input immutability is checked by sha256, not proved (shared trace property with C10)",
+    "input immutability: the path arithmetic of setup_task_paths is proved (setup_never_touches_"
+    "input, setup_refuses_input_as_output); that the tasks open the input read-only is checked "
+    "by sha256 only (shared trace property with C10)",
     "values of ancillary features written by condense (C06) are compared with ds[feat], not proved"]
 
 O8_ENC = {U.enc(k) for k in U.O8_KEYS}
@@ -579,8 +590,13 @@ def run(ctx, only=None):
                                 f"{mirror[0][0]}"[:600],
                       {"correspondence": "Drive/C08.lean (rtdcCopy / compress / condense) vs "
                                          "dclab.cli tasks", "layout": mirror[0][1]})
-    if ctx.thorough and only is None:
-        tdms_part(ctx)
+    if only is None:
+        n0 = len(ctx.violations)
+        paths_part(ctx)
+        tdms_dir_part(ctx)
+        if ctx.thorough:
+            tdms_part(ctx)
+        return bool(all_probs) or len(ctx.violations) > n0
     return bool(all_probs)
 
 
@@ -617,6 +633,218 @@ def shrink(ctx, spec, what):
         if fails(cand):
             cur = cand
     return cur
+
+
+# ---------------------------------------------------------------------------------------
+# output names: the input is never touched, whatever the output is called
+def gen_out_name(rng, stem):
+    base = rng.choice([stem, stem, stem, "out", "res_" + stem, "M001"])
+    extras = rng.sample(["compressed", "v1", "0", "04_out", "tmp", "rtdc", "RTDC", "cond", ""],
+                        rng.choice([0, 0, 1, 1, 2]))
+    suffix = rng.choice(["", "", ".rtdc", ".rtdc", ".h5", ".RTDC", ".rtdc~", ".tdms", ".x"])
+    name = ".".join([base] + extras) + suffix
+    if rng.random() < 0.06:
+        name = "." + name
+    return name
+
+
+def expected_out(po):
+    """the documented rule: '.rtdc' is appended unless the name already ends with it"""
+    return po if po.suffix == ".rtdc" else po.with_name(po.name + ".rtdc")
+
+
+def quick_content(path):
+    import h5py
+    with h5py.File(path, "r") as h:
+        return {k: h["events"][k][:].tobytes() for k in h["events"]
+                if isinstance(h["events"][k], h5py.Dataset)}
+
+
+def paths_part(ctx):
+    common.import_dclab()
+    from dclab import cli
+    lines, wants = [], []
+    for c in range(ctx.n(40, 400)):
+        rng = ctx.rng
+        wd = ctx.workdir / f"p{c}"
+        if wd.exists():
+            shutil.rmtree(wd)
+        wd.mkdir()
+        stem = rng.choice(["x", "M001_sample", "data.v2", "a b"])
+        pin = wd / (stem + ".rtdc")
+        gen.make_rtdc(pin, range(6), feats=["deform", "area_um"], rid=U.RID)
+        name = gen_out_name(rng, stem)
+        same = rng.random() < 0.7
+        odir = wd if same else wd / "other"
+        odir.mkdir(exist_ok=True)
+        po = odir / name
+        task = rng.choice(["compress", "repack", "condense", "join"])
+        exp = expected_out(po)
+        refuse = exp.resolve() == pin.resolve()
+        # bystanders: files that a wrong suffix rule could hit
+        by = {}
+        for cand in {po.with_suffix(".rtdc"), odir / (name.split(".")[0] + ".rtdc"),
+                     odir / (stem + ".rtdc"), exp}:
+            if cand.resolve() != pin.resolve() and rng.random() < 0.7:
+                gen.make_rtdc(cand, range(20, 24), feats=["deform"], rid="bystander")
+                by[cand] = U.sha256(cand)
+        sha0 = U.sha256(pin)
+        content0 = quick_content(pin)
+        before = {p for p in wd.rglob("*") if p.is_file()}
+        err, ret = None, None
+        try:
+            import io
+            import contextlib
+            with contextlib.redirect_stdout(io.StringIO()):
+                if task == "join":
+                    pin2 = wd / "second_input.rtdc"
+                    gen.make_rtdc(pin2, range(30, 34), feats=["deform", "area_um"], rid=U.RID,
+                                  meta={"experiment": {"time": "11:00:00", "run index": 2}})
+                    before.add(pin2)
+                    ret = cli.join(paths_in=[pin, pin2], path_out=po, ret_path=True)
+                else:
+                    ret = getattr(cli, task)(path_in=pin, path_out=po, ret_path=True)
+        except BaseException as e:  # noqa
+            err = f"{type(e).__name__}: {e}"[:160]
+        label = f"{task}(path_in={pin.name!r}, path_out={'' if same else 'other/'}{name!r})"
+        ctx.case(("paths", task, stem, name, same), nontrivial=po.suffix != ".rtdc")
+        ctx.stat("paths:" + ("refused" if refuse else "suffix_ok" if po.suffix == ".rtdc"
+                             else "suffix_corrected"))
+        probs = []
+        if not pin.exists():
+            probs.append(f"{label}: the INPUT file was deleted")
+        elif U.sha256(pin) != sha0:
+            probs.append(f"{label}: the input file was modified")
+        if refuse:
+            if err is None:
+                probs.append(f"{label}: output resolves to the input but the task did not refuse")
+        elif err is not None:
+            probs.append(f"{label} raised {err}")
+        else:
+            if pathlib.Path(ret).resolve() != exp.resolve() or not exp.exists():
+                probs.append(f"{label}: output written to {pathlib.Path(ret).name!r}, documented "
+                             f"location is {exp.name!r}")
+            elif task != "join" and any(quick_content(exp).get(k) != v for k, v in content0.items()):
+                probs.append(f"{label}: output features differ from the input")
+            after = {p for p in wd.rglob("*") if p.is_file()}
+            stray = sorted(str(p.relative_to(wd)) for p in after - before - {exp})
+            if stray:
+                probs.append(f"{label}: unexpected files {stray[:3]}")
+        for cand, h in by.items():
+            if cand.resolve() in (exp.resolve(), exp.with_suffix(".rtdc~").resolve()):
+                continue
+            if not cand.exists() or U.sha256(cand) != h:
+                probs.append(f"{label}: the unrelated file {cand.name!r} was deleted or changed")
+        for pr in probs[:2]:
+            ctx.violation("spec", pr, {"paths": {"task": task, "stem": stem, "name": name,
+                                                 "same_dir": same}})
+        if "." in stem or " " in stem or " " in name:
+            pass
+        lines.append(f"paths {(stem + '.rtdc').replace(' ', '_')} {name.replace(' ', '_')} {int(same)}")
+        wants.append((label, "refused" if err is not None and refuse else
+                      None if err is not None else "out=" + pathlib.Path(ret).name.replace(" ", "_")))
+        shutil.rmtree(wd, ignore_errors=True)
+    if ctx.lean_ok and lines and not ctx.violations:
+        out = ctx.lean("C08", lines)
+        for (label, want), ans in zip(wants, out):
+            if want is not None and ans.split(" temp=")[0] != want:
+                ctx.violation("mirror", f"{label}: task paths differ from the model "
+                                        f"(impl {want}, model {ans})",
+                              {"correspondence": "Copy.setupPaths vs cli.common.setup_task_paths"})
+                break
+
+
+# ---------------------------------------------------------------------------------------
+# tdms2rtdc on a directory of heterogeneous measurements
+TDMS_POOL = ["fmt-tdms_shapein-2.0.1-no-image_2017.zip", "fmt-tdms_2fl-no-image_2017.zip",
+             "fmt-tdms_minimal_2016.zip", "fmt-tdms_fl_2015.zip"]
+
+
+def tdms_dir_part(ctx):
+    dclab = common.import_dclab()
+    from dclab import cli
+    import zipfile
+    import io
+    import contextlib
+    data = common.REPO / "tests" / "data"
+    pool = [z for z in TDMS_POOL if (data / z).exists()]
+    if len(pool) < 2:
+        ctx.note("tdms fixtures not found; directory conversion not exercised")
+        return
+    k = 2 if not ctx.thorough else min(4, len(pool))
+    chosen = ctx.rng.sample(pool, k)
+    wd = ctx.workdir / "tdmsdir"
+    src, dst = wd / "in", wd / "out"
+    innate = {}
+    for z in chosen:
+        d = wd / "unz" / z[:-4]
+        d.mkdir(parents=True, exist_ok=True)
+        zipfile.ZipFile(data / z).extractall(d)
+        with dclab.new_dataset(sorted(d.rglob("*.tdms"))[0]) as ds:
+            innate[z] = list(ds.features_innate)
+    # adversarial order: the measurement with the fewest features is converted first
+    order = sorted(chosen, key=lambda z: (len(innate[z]), z))
+    if ctx.thorough and ctx.rng.random() < 0.5:
+        ctx.rng.shuffle(order)
+    for i, z in enumerate(order):
+        shutil.copytree(wd / "unz" / z[:-4], src / f"{i:02d}_{z[9:-4]}")
+    shas = {p: U.sha256(p) for p in src.rglob("*") if p.is_file()}
+    try:
+        with contextlib.redirect_stdout(io.StringIO()):
+            cli.tdms2rtdc(path_tdms=src, path_rtdc=dst, compute_features=False, verbose=False)
+    except Exception as e:  # noqa
+        ctx.violation("spec", f"tdms2rtdc on a directory raised {type(e).__name__}: {e}"[:200],
+                      {"tdms_dir": order})
+        return
+    lines = ["bulk " + " ".join(",".join(innate[z]) for z in order)]
+    got = []
+    for i, z in enumerate(order):
+        sub = src / f"{i:02d}_{z[9:-4]}"
+        for tdms in sorted(sub.rglob("*.tdms")):
+            if tdms.name.endswith("_traces.tdms"):
+                continue
+            out = dst / tdms.relative_to(src).with_suffix(".rtdc")
+            ctx.case(("tdmsdir", z, i), nontrivial=True)
+            ctx.stat("tdms_dir_measurements")
+            if not out.exists():
+                ctx.violation("spec", f"tdms2rtdc (directory): no output for {z}", {"tdms_dir": order})
+                continue
+            with dclab.new_dataset(tdms) as ds, dclab.new_dataset(out) as do:
+                import h5py
+                with h5py.File(out, "r") as h:
+                    stored = sorted(h["events"].keys())
+                got.append(stored)
+                missing = [f for f in ds.features_innate if f not in stored]
+                if missing:
+                    ctx.violation("spec", f"tdms2rtdc (directory, measurement {i + 1} of {len(order)}: "
+                                          f"{z}): features {missing[:5]} of the .tdms source are "
+                                          f"missing in the output", {"tdms_dir": order, "missing": missing})
+                    continue
+                first = bool(("image" in ds and ds.config["fmt_tdms"]["video frame offset"])
+                             or ("contour" in ds and np.all(ds["contour"][0] == 0))
+                             or ("image" in ds and np.all(ds["image"][0] == 0)))
+                lens = [len(ds["trace"][t]) for t in ds["trace"]] if "trace" in ds.features_innate else []
+                lens += [len(ds[f]) for f in ds.features_innate if f != "trace"]
+                keep = [j for j in range(int(min(lens))) if not (first and j == 0)]
+                for f in ds.features_innate:
+                    if f in ("contour", "trace", "image", "mask") or f.startswith("fl") and f.endswith("_max"):
+                        continue
+                    a, b = np.asarray(ds[f][:])[keep], np.asarray(do[f][:])
+                    if len(b) != len(keep) or not np.array_equal(a, b, equal_nan=True):
+                        ctx.violation("spec", f"tdms2rtdc (directory): feature {f} of {z} differs "
+                                              f"from the .tdms source", {"tdms_dir": order, "feature": f})
+                        break
+    if any(U.sha256(p) != h for p, h in shas.items() if p.exists()) or any(not p.exists() for p in shas):
+        ctx.violation("spec", "tdms2rtdc (directory) modified or removed an input file",
+                      {"tdms_dir": order})
+    if ctx.lean_ok and got and not ctx.violations:
+        ans = ctx.lean("C08", lines)[0].split(" ")
+        for z, want, stored in zip(order, ans, got):
+            w = [] if want == "-" else want.split(",")
+            if not set(w) <= set(stored):
+                ctx.violation("mirror", f"tdms2rtdc directory: stored features of {z} do not "
+                                        f"contain the model's list", {"correspondence": "bulkFeatures"})
+    shutil.rmtree(wd, ignore_errors=True)
 
 
 def tdms_part(ctx):
@@ -676,6 +904,11 @@ def tdms_part(ctx):
 
 def replay(ctx, data):
     r = data.get("replay", data)
+    if "paths" in r or "tdms_dir" in r:
+        n0 = len(ctx.violations)
+        paths_part(ctx)
+        tdms_dir_part(ctx)
+        return len(ctx.violations) > n0
     if "layout" not in r:
         return run(ctx)
     return run(ctx, only=[r["layout"]])
